@@ -269,8 +269,8 @@ Definition read_morph (f : list Z) : res (list Z) :=
   end.
 
 (* ------------------------------------------------------------------ annotation *)
-(* integer arithmetic of the colour table's dtype: None = wide enough to be exact,
-   Some (bits, signed) = wraps like that NumPy integer type *)
+(* integer arithmetic of a NumPy dtype: None = exact (Python ints / float64 on small values),
+   Some (bits, signed) = wraps like that integer type *)
 Definition wrap (dt : option (Z * bool)) (z : Z) : Z :=
   match dt with
   | None => z
@@ -278,9 +278,20 @@ Definition wrap (dt : option (Z * bool)) (z : Z) : Z :=
     let m := z mod 2 ^ bits in
     if signed && (2 ^ (bits - 1) <=? m) then m - 2 ^ bits else m
   end.
-(* _pack_rgb: rgb.dot(2 ** array([[0],[8],[16]], dtype=rgb.dtype)) *)
-Definition pack_rgb (dt : option (Z * bool)) (row : list Z) : Z :=
+(* _pack_rgb: for an integer/bool rgb the factors and the dot product are computed in
+   np.result_type(rgb.dtype, np.int32): int32 for every type narrower than 32 bits and for int32,
+   int64 for uint32 and int64, float64 (exact here) for uint64 *)
+Definition promote (dt : option (Z * bool)) : option (Z * bool) :=
+  match dt with
+  | None => None
+  | Some (bits, signed) =>
+    if bits <? 32 then Some (32, true)
+    else if bits =? 32 then (if signed then Some (32, true) else Some (64, true))
+    else if signed then Some (64, true) else None
+  end.
+Definition pack_rgb_raw (dt : option (Z * bool)) (row : list Z) : Z :=
   wrap dt (nth 0 row 0 * wrap dt 1 + nth 1 row 0 * wrap dt 256 + nth 2 row 0 * wrap dt 65536).
+Definition pack_rgb (dt : option (Z * bool)) (row : list Z) : Z := pack_rgb_raw (promote dt) row.
 
 Definition I32 : option (Z * bool) := Some (32, true).
 
